@@ -74,7 +74,7 @@ THOROUGH = [      # sizes (types): 9k 11k 16k 18k 4k 14k 3k 7k 2k 1k
     fam('coll', 2, 1, ['int', 'bytes'], bin=['pair', 'or'], un=['option', 'list', 'set'], maps=['map', 'big_map'], fields=['a']),
     fam('keys', 2, 2, ['nat'], bin=['pair', 'or'], un=['set', 'option'], maps=['map'], fields=['a', 'nat_1']),
     fam('opt3', 3, 1, ['int'], bin=['pair'], un=['option'], fields=['a']),
-    fam('sumdef', 2, 3, ['int', 'unit'], bin=['or'], fields=['default', 'f', 'root'], ep=1),
+    fam('sumdef', 2, 3, ['int', 'unit'], bin=['or'], fields=['default', 'f', 'g'], ep=1),      # (a branch named root next to one named default is the reserved-name corner C13 sets aside)
     dict(fam('deep', 0, 0, ['nat']), deep=True),
 ]
 
